@@ -11,8 +11,12 @@ CHECKS = {
  "C12": ("CBMC pointer/bounds/overflow checks over the three stages of the uplink path with ARBITRARY inputs: every stream of <=8 bytes (+ scaled read buffer for the overflow edge), every packet of <=10 bytes through bidib_split_packet, every exact-size message of 0..9 data bytes of every type through the dispatcher; termination via unwinding assertions.", "DESIGN 4/C12"),
  "C03": ("Inductive step of the per-node budget machine (bidib_node_try_send / bidib_node_state_update incl. expiry and release of held messages) from an arbitrary valid node state with <=3 outstanding and <=2 held messages, all request/answer types, clock values; bounded histories from the real initial state.", "DESIGN 4/C03"),
 }
+ALL = ["C%02d" % i for i in range(1, 21)]
 NA = {}
 def main():
+    for k in ALL:
+        if k not in CHECKS and k not in NA:
+            NA[k] = "no check committed yet (work in progress, see DESIGN.md section 4 for the planned harness); not claimed"
     checks = []
     for pid, (text, ref) in sorted(CHECKS.items()):
         checks.append({
